@@ -853,6 +853,14 @@ def handleGlue (st : St) (args : List String) (impl : String) : Option (St × Ve
       | some r => some ({ st with glue := some g' }, cmpModel s!"[{";".intercalate log}]|{r}|closed:{closed}" impl)
       | none => some (st, .unknown)
     | _, _ => some (st, .unknown)
+  | "glue" :: "recvio" :: rest =>
+    -- the io point of the arm fails (the temporary file of an accepted archive cannot be created)
+    match st.glue, parseIn rest with
+    | some g, some ([m], _, _) =>
+      let (g', calls, out) := consumeGlueIo g m
+      let closed := match out with | .disconnect => 1 | .badMessage => 1 | .ioErr => 1 | _ => 0
+      some ({ st with glue := some g' }, cmpModel s!"[{";".intercalate (calls.map (showCall 0 ""))}]|-|closed:{closed}" impl)
+    | _, _ => some (st, .unknown)
   | "glue" :: "recvf" :: f :: rest =>
     -- the underlying adapter fails (chain error) in method `f`
     match st.glue, parseIn rest with
@@ -984,6 +992,15 @@ def handleMore (args : List String) (impl : String) : Option Verdict :=
                 showU u1, b (storeIsBanned c2), showU (unbanPeer now c2),
                 showE r2, b (storeIsBanned s1), showE r3, b (storeIsBanned n1), showU (unbanPeer now n1)]
     some (cmpModel (";".intercalate out) impl)
+  | ["server", "limit", maxIn, buffer, n] =>
+    -- a real `Server::listen`: connection i arrives when the i earlier ACCEPTED ones are connected inbound peers
+    match nat? maxIn, nat? buffer, nat? n with
+    | some maxIn, some buffer, some n =>
+      let step : Nat × List Char → Nat → Nat × List Char := fun (acc, out) _ =>
+        if checkUndesirable acc maxIn buffer true false (some false) then (acc, out ++ ['0']) else (acc + 1, out ++ ['1'])
+      let (_, out) := (List.range n).foldl step (0, [])
+      some (cmpModel (String.ofList out) impl)
+    | _, _, _ => some .unknown
   | ["stoprace", _k] => some (cmpSpec "finished" impl)
   | ["stopmid"] =>
     -- the `stopped` flag is read at the top of the reader loop only: the frame in flight is completed and handed
